@@ -347,6 +347,37 @@ def ty_bits(ty):
     return None
 
 
+def _copy_val(v, memo):
+    import copy
+    if isinstance(v, (int, str, BV, Lin, Ref, Sym, UBool, Opaque, tuple, frozenset)) or v is None:
+        return v
+    k = id(v)
+    if k in memo:
+        return memo[k]
+    if isinstance(v, Tup):
+        n = Tup([])
+        memo[k] = n
+        n.fields = [_copy_val(x, memo) for x in v.fields]
+        return n
+    if isinstance(v, Adt):
+        n = Adt(v.path, v.variant, v.vname, [])
+        memo[k] = n
+        n.fields = [_copy_val(x, memo) for x in v.fields]
+        return n
+    if isinstance(v, list):
+        n = []
+        memo[k] = n
+        n.extend(_copy_val(x, memo) for x in v)
+        return n
+    n = copy.copy(v)
+    memo[k] = n
+    if hasattr(n, "__dict__"):
+        for a, x in list(n.__dict__.items()):
+            if isinstance(x, (list, dict, set)):
+                setattr(n, a, copy.copy(x))
+    return n
+
+
 class State(object):
     def __init__(self):
         self.locals = {}
@@ -363,8 +394,27 @@ class State(object):
         self.nframes = 1
 
     def clone(self):
+        """Copy of the abstract state.  Bit vectors, affine values and references are immutable and shared; containers and
+        abstract objects (tuples, enums, iterators, assembler / CRC objects) are copied, preserving aliasing inside the state."""
         import copy
-        return copy.deepcopy(self)
+        memo = {}
+        for v in self.mem.values():
+            memo[id(v)] = v
+        n = copy.copy(self)
+        n.mem = dict(self.mem)
+        n.written = set(self.written)
+        n.locals = {k: _copy_val(v, memo) for k, v in self.locals.items()}
+        n.frames = {}
+        for fid, fr in self.frames.items():
+            n.frames[fid] = n.locals if fr is self.locals else {k: _copy_val(v, memo) for k, v in fr.items()}
+        if self.self_fields is not None:
+            n.self_fields = _copy_val(self.self_fields, memo)
+        for attr, val in list(self.__dict__.items()):
+            if attr in ("mem", "written", "locals", "frames", "self_fields"):
+                continue
+            if isinstance(val, (list, dict, set)):
+                setattr(n, attr, copy.copy(val))
+        return n
 
 
 class Interp(object):
@@ -1028,8 +1078,8 @@ class Interp(object):
             steps = 0
             while True:
                 steps += 1
-                if steps > 2000:
-                    raise Undecided("helper %s does not terminate within 2000 blocks" % f.path)
+                if steps > 20000:
+                    raise Undecided("helper %s does not terminate within 20000 blocks" % f.path)
                 blk = self.blocks[b]
                 for s_ in blk["stmts"]:
                     if s_["k"] != "assign":
